@@ -278,6 +278,11 @@ def judge_hist(ctx, case, impls, outs_per_call):
         res = out["res"]
         if "ok" in res and res["ok"] and out["pairs"] and len(call["ref"]) == len(call["est"]):
             P1.judge_stats(ctx, case, k, out, res["ok"], rel, call.get("unit_after"))
+            native = {"trans_part": "m", "point_distance": "m", "angle_deg": "deg", "angle_rad": "rad",
+                      "point_distance_error_ratio": "%"}.get(rel, "unit-less")
+            if out.get("unit_before") != native:
+                ctx.mismatch(case, f"call {k}: unit label after process_data is not the native unit of the relation",
+                             out.get("unit_before"), native)
     ctx.count("branch", "hist-calls", len(case["calls"]))
     ctx.record(case, True)
 
